@@ -32,4 +32,9 @@ func TestCheckGangIntegrity(t *testing.T) {
 		func(t *rapid.T) *sim.World { return sim.GenWorld(t, profile()) }, sim.JudgeGangs)
 }
 
+// pod groups edited between cycles of a long-running scheduler right after it wrote their status (families.go)
+func TestCheckSpecEditFamilies(t *testing.T) {
+	sim.CheckProperty(t, "C03", kit.Budget{Quick: 1500, Thorough: 60000}, sim.GenSpecEditFamily, sim.JudgeGangs)
+}
+
 func TestReplay(t *testing.T) { sim.ReplayProperty(t, sim.JudgeGangs, 20) }
